@@ -22,6 +22,7 @@ import (
 )
 
 type rqMon struct {
+	fast     bool // no artificial processing time (cases that need the source's own block rate)
 	mu       sync.Mutex
 	inPS     bool
 	inReq    int
@@ -46,7 +47,9 @@ func (w *rqSource) ProcessSegments(b *dataBlock) error {
 	w.m.inPS = true
 	w.m.mu.Unlock()
 	err := w.TriangleSource.ProcessSegments(b)
-	time.Sleep(8 * time.Millisecond) // keep the "processing" window wide so that an unserialised request is likely to hit it
+	if !w.m.fast {
+		time.Sleep(8 * time.Millisecond) // keep the "processing" window wide so that an unserialised request is likely to hit it
+	}
 	w.m.mu.Lock()
 	w.m.inPS = false
 	w.m.mu.Unlock()
@@ -241,9 +244,14 @@ func rqIssue(ctl *SourceControl, c rqCase, dir string, nsamp int) error {
 			"empty": {}}[c.Arg]
 		return ctl.ConfigureMixFraction(&mfo, &ok)
 	case "rawblock":
-		n := map[string]int{"valid": 100, "zero": 0, "negative": -10}[c.Arg]
+		n := map[string]int{"valid": 100, "zero": 0, "negative": -10, "large": 300000}[c.Arg]
 		var name string
 		err := ctl.StoreRawDataBlock(n, &name)
+		if c.Arg == "large" {
+			// the request is answered at once; the block is then acquired (1.5 s here) and written by a goroutine of its
+			// own while data keep coming every 0.5 ms: wait until that has happened before looking for progress
+			time.Sleep(2800 * time.Millisecond)
+		}
 		if name != "" {
 			defer os.Remove(name)
 		}
@@ -271,7 +279,7 @@ func rqCases() []rqCase {
 	add("grouptrigger", map[string]string{"valid": "ok", "src-toolarge": "err", "rx-toolarge": "err", "negative": "err", "rx-negative": "err", "self": "any", "empty": "any"})
 	add("grouptrigger-del", map[string]string{"valid": "ok", "absent": "any", "src-toolarge": "any", "negative": "any"})
 	add("mix", map[string]string{"valid": "err", "mismatched": "err", "empty": "err"})
-	add("rawblock", map[string]string{"valid": "ok", "zero": "any", "negative": "any"})
+	add("rawblock", map[string]string{"valid": "ok", "zero": "any", "negative": "any", "large": "ok"})
 	return out
 }
 
@@ -514,6 +522,13 @@ func TestVerifRequests(t *testing.T) {
 			expect := c.Expect
 			switch timing {
 			case "running":
+				if c.Kind == "rawblock" && c.Arg == "large" {
+					// a fast source: 1 ms blocks, so that writing the file takes many block periods
+					if err := rig.ctl.triangle.Configure(&TriangleSourceConfig{Nchan: 8, SampleRate: 1e6, Min: 100, Max: 600}); err != nil {
+						t.Fatal(err)
+					}
+					rig.mon.fast = true
+				}
 				if err := rig.start(); err != nil {
 					t.Fatal(err)
 				}
@@ -551,7 +566,7 @@ func TestVerifRequests(t *testing.T) {
 				expect = "any" // a request for the lengths already in force changes nothing, with or without a source
 			}
 			vEmit(vmap{"ev": "Case", "scen": id, "timing": timing, "kind": c.Kind, "arg": c.Arg, "expect": expect})
-			ret, msg, ms := rqCall(func() error { return rqIssue(rig.ctl, c, dir, 40) }, 2500*time.Millisecond)
+			ret, msg, ms := rqCall(func() error { return rqIssue(rig.ctl, c, dir, 40) }, 6500*time.Millisecond)
 			vEmit(vmap{"ev": "Ret", "returned": ret, "err": msg, "ms": ms})
 			pr := rig.probe(timing == "running")
 			pr["ev"] = "Probe"
